@@ -21,6 +21,7 @@ from __future__ import annotations
 
 import collections
 import random
+from fractions import Fraction as F
 
 from harness import gn
 from harness.report import Report
@@ -49,7 +50,34 @@ def _instances(tier, seed):
         for maxiter in (1, 2, 3, 4):
             for T in gn.TOLS:
                 insts.append(dict(base, maxiter=maxiter, T=T))
+    # affine problems with few rows on four variables, replayed a second time with one row scaled by 2^-27 (see run)
+    for _ in range(10 if quick else 60):
+        insts.append(dict(gn.make_instance(rng, kind="affine", D=4, K=2, lmode="tril", maxiter=4, x0_is_mean=True, T=gn.TOLS[-1]), rowscale=True))
     return insts
+
+
+def _row_scaled(rep, inst, sp):
+    """the same affine constraint with its second row multiplied by 2^-27 has the same solution set, hence the same conditional
+    mean, but J L is ill-conditioned (and well inside double precision): the routine must still return TLC's exact point"""
+    import numpy as np
+
+    ret = sp.get("ret")
+    if ret is None or ret["outcome"] != "feasible":
+        return
+    e = [F(1), F(1, 2**27)]
+    # (tolerance 2^-40: the stopping rule reads the SCALED residual, which is about 2^-27 for a violated second row)
+    scaled = dict(inst, A=[[F(v) * e[k] for v in row] for k, row in enumerate(inst["A"])], b=[F(v) * e[k] for k, v in enumerate(inst["b"])], T=2**40)
+    x, stats, _rec = gn.run_real(scaled)
+    want = np.array([float(v) for v in ret["x"]])
+    A = np.array([[float(v) for v in row] for row in inst["A"]])
+    b = np.array([float(v) for v in inst["b"]])
+    rep.traces += 1
+    rep.add_case(("gn-rowscaled", tuple(map(str, inst["b"])), tuple(map(str, inst["m"]))))
+    err = float(np.max(np.abs(x - want)) / max(1.0, float(np.max(np.abs(want)))))
+    feas = float(np.max(np.abs(A @ x - b)))
+    if not (np.all(np.isfinite(x)) and err <= 1e-6 and feas <= 1e-6):
+        rep.violation("impl:affine:row-scaled:return.x", f"affine D=4 K=2 with row 2 scaled by 2^-27: returned point deviates from the exact conditional mean by {err:.2e} (unscaled residual {feas:.2e}, iters={int(stats['iters'])})",
+                      {"instance": gn.to_json(inst)})
 
 
 def _band_family(tier, seed, rep):
@@ -151,9 +179,11 @@ def run(tier: str, seed: int) -> int:
             if inst["lmode"].startswith("sing"):
                 stat["returned_with_singular_factor"] += 1
         _record(rep, inst, j, bad)
+        if inst.get("rowscale"):
+            _row_scaled(rep, inst, sp)
     rep.extra["instances"] = len(insts)
     rep.extra["guard_band_instances"] = band_ok
-    if band_ok < 40:
+    if band_ok < 40 and not rep.violations:  # (a routine that deviates at the guards is a verdict, not a vacuous run)
         raise RuntimeError(f"guard-band family too small: {band_ok} instances evaluated (need >= 40)")
     rep.extra["gauss_newton_steps_compared_histogram"] = {str(k): v for k, v in sorted(depth.items())}
     rep.extra["counts"] = dict(sorted(stat.items()))
